@@ -843,6 +843,49 @@ def run(res, tier, seed, replay):
         res.notes["rejected_with_macros_accepted_inlined"] = [
             {"doc": txt(it)[:400], "diagnostic": C.unhx(P.parse(o)[1]["msg"]).decode("latin1")[:120]} for it, o in converse[:5]]
 
+    # (ii') ONE macro pasted at two places: every pasted copy is a directive of its own - whatever a check compares (names, path
+    # parameters, singleton slots), two pastes count as two directives, exactly as when the body is written twice
+    twice = []
+    contents = [('Path\n{I}  {\n{I}    "id": 1\n{I}  }', True), ('Path\n{I}  {\n{I}    "id": "x" // {type: "string"}\n{I}  }', True),
+                ("Query\n{I}  {\n{I}    \"q\": 1\n{I}  }", False), ("Description\n{I}  some text", False), ("404 any", False),
+                ("Request any", False), ("Headers\n{I}  {\n{I}    \"h\": \"v\"\n{I}  }", False)]
+    hostpairs = [(("GET /cats/{id}", "DELETE /cats/{id}"), 1), (("URL /cats/{id}", "URL /cats/{id}/toys"), 1), (("GET /cats/{id}", "PUT /dogs/{id}"), 1),
+                 (("URL /cats/{id}", "POST /cats/{id}/toys"), 1), (("GET /a", "GET /b"), 1)]
+    for content, _ in contents:
+        for (h1, h2), _ in hostpairs:
+            for nested in (False, True):
+                def host(h, body, paste):
+                    kids = ("  PASTE @p\n" if paste else "".join("  " + l + "\n" for l in body.replace("{I}", "").split("\n")))
+                    if h.startswith("URL"):
+                        return h + "\n" + kids + "  GET\n    200 any\n"
+                    return h + "\n" + kids + "  200 any\n"
+                body_lines = content
+                mac = "MACRO @p\n(\n" + "".join("  " + l + "\n" for l in content.replace("{I}", "").split("\n")) + ")\n"
+                if nested:
+                    mac = mac.replace("MACRO @p", "MACRO @q") + "MACRO @p\n(\n  PASTE @q\n)\n"
+                head = "JSIGHT 0.3\nTAG @g\n"
+                with_macros = head + mac + host(h1, content, True) + host(h2, content, True)
+                inlined = head + host(h1, content, False) + host(h2, content, False)
+                twice.append((with_macros.encode(), inlined.encode()))
+    o_tw = run_impl([P.run_line("out=sha", [("a.jst", d)]) for pair in twice for d in pair])
+    res.count(len(o_tw))
+    tw_dist = {"both accepted": 0, "both rejected": 0}
+    for i, (wm, inl) in enumerate(twice):
+        a, b = o_tw[2 * i], o_tw[2 * i + 1]
+        sa, sb = status(a), status(b)
+        if sa == sb == "ok" and P.parse(a)[1].get("sha") == P.parse(b)[1].get("sha"):
+            tw_dist["both accepted"] += 1
+            res.nontrivial(("pasted-twice", wm))
+        elif sa == sb == "err" and err_class(a) == err_class(b):
+            tw_dist["both rejected"] += 1
+            res.nontrivial(("pasted-twice", wm))
+        else:
+            res.violation("one macro pasted at two places does not mean what its body written twice means: with macros %s, written in place %s" % (
+                "accepted" if sa == "ok" else "%s (%s)" % (sa, err_class(a)), ("accepted" + (" with another catalog" if sa == "ok" else "")) if sb == "ok" else "%s (%s)" % (sb, err_class(b))),
+                {"doc": C.hx(wm), "inlined": C.hx(inl), "text": wm.decode()[:700]})
+            return
+    res.notes["pasted_twice"] = dict(tw_dist, pairs=len(twice))
+
     # (iv) duplicates and undefined names, derived from accepted documents
     derived = []
     for (k, mac, inl) in accepted[: (300 if quick else 5000)]:
